@@ -69,6 +69,9 @@ pub struct IModel {
     /// token id -> (index into toks, native?)
     pub registry: BTreeMap<[u8; 32], (usize, bool)>,
     pub reg_order: Vec<[u8; 32]>,
+    /// canonical registrations of addresses that are no token at all (an account, a contract
+    /// without the token interface): the id is taken all the same
+    pub nontoken: BTreeMap<[u8; 32], u8>,
     pub gw: BTreeMap<(String, String), GStat>,
     pub app_count: u32,
     pub effects_applied: BTreeMap<(String, String), u32>,
